@@ -53,4 +53,18 @@ EmitR ==
                                    r1 |-> ex.tr[i + 1], r2 |-> ex.tr[i + 2],
                                    v1 |-> Brief(Executed(s, a)), v2 |-> Brief(Executed(sa, b))]))
                  /\ TLCSet(2, TLCGet(2) \cup {key})
+\* extension: the first step enables the second one (disabled before it)
+EmitEn ==
+  LET s == Settled IN
+  (i + 2 <= Len(ex.sched) /\ ~s.aborted) =>
+     LET a == ex.sched[i + 1]
+         b == ex.sched[i + 2] IN
+     (a # b /\ En(s, a) /\ IsTrans(s, b) /\ ~EnabledMC(P, s, b)) =>
+        LET sa  == Do(s, a)
+            key == <<ex.tr[i + 1], ex.tr[i + 2], "en">> IN
+        (~sa.aborted /\ En(sa, b) /\ key \notin TLCGet(2)) =>
+           /\ PrintT(ToJson([k |-> "real-en", id |-> ex.id, step |-> i + 1, commute |-> FALSE, pid |-> pid,
+                             r1 |-> ex.tr[i + 1], r2 |-> ex.tr[i + 2],
+                             v1 |-> Brief(Executed(s, a)), v2 |-> Brief(Executed(sa, b))]))
+           /\ TLCSet(2, TLCGet(2) \cup {key})
 =============================================================================
